@@ -9,6 +9,9 @@
 //	     conforming client that follows to /show twice.
 //	rtt  keys vals levels oldKeys oldVals wi<p1>.<p2>… | issued st2 seen2 exp2 st3 seen3
 //	     same, but the client copies the Set-Cookie value verbatim into its Cookie header.
+//	rff  keys vals levels mode | issued st2 relaySeen issued2 exp2 st3 seen3 exp3 st4 seen4
+//	     re-flash: the verbatim client follows to /relay, whose handler re-attaches the messages it
+//	     received (mode same / rev / chg) and redirects again; then /show twice.
 //	dec  cookies(hexlist) | per request "status/seenCookie/msgs/exp" joined by '|' , allocs (csv)
 //	     raw cookie values sent one after another to the same app (pooled context reused).
 //
@@ -52,8 +55,10 @@ type script struct {
 }
 
 var (
-	app *fiber.App
-	cur script
+	app       *fiber.App
+	cur       script
+	relayMode string // how /relay re-attaches the messages it received
+	relaySeen string // what the /relay handler saw ("nohandler" if it did not run)
 )
 
 func hx(s string) string {
@@ -81,52 +86,79 @@ func setup() {
 		return r.To("/show")
 	})
 	app.Get("/show", func(c fiber.Ctx) error {
-		var parts []string
-		for _, m := range c.Redirect().Messages() {
-			parts = append(parts, hx(m.Key)+"."+hx(m.Value)+"."+strconv.Itoa(int(m.Level))+".0")
-		}
-		var olds []string
-		for _, m := range c.Redirect().OldInputs() {
-			olds = append(olds, hx(m.Key)+"."+hx(m.Value)+".0.1")
-		}
-		sort.Strings(olds) // issued in Go map order
-		parts = append(parts, olds...)
-		s := strings.Join(parts, ",")
-		if s == "" {
-			s = "-"
-		}
-		// keyed readers: every key of the script (flash keys, input names), every key the list
-		// readers showed, and one key that is (normally) absent; first occurrence only
-		var keys []string
-		have := map[string]bool{}
-		add := func(k string) {
-			if !have[k] {
-				have[k] = true
-				keys = append(keys, k)
+		return c.SendString("ck=" + gen.Hex(c.Cookies("fiber_flash")) + ";m=" + seenBy(c))
+	})
+	// the re-flash pattern: the handler that consumes the messages redirects again and re-attaches
+	// what it received (relayMode: same = as received, in order, same levels -> identical bytes;
+	// rev = in reverse order; chg = value of the first message changed)
+	app.Get("/relay", func(c fiber.Ctx) error {
+		relaySeen = seenBy(c)
+		msgs := c.Redirect().Messages()
+		switch relayMode {
+		case "rev":
+			for i, j := 0, len(msgs)-1; i < j; i, j = i+1, j-1 {
+				msgs[i], msgs[j] = msgs[j], msgs[i]
+			}
+		case "chg":
+			if len(msgs) > 0 {
+				msgs[0].Value += "!"
 			}
 		}
-		for _, f := range cur.flashes {
-			add(f.key)
+		r := c.Redirect()
+		for _, m := range msgs {
+			r.With(m.Key, m.Value, m.Level)
 		}
-		for _, kv := range cur.olds {
-			add(kv[0])
-		}
-		for _, m := range c.Redirect().Messages() {
-			add(m.Key)
-		}
-		for _, m := range c.Redirect().OldInputs() {
-			add(m.Key)
-		}
-		add("zz-absent")
-		var keyed []string
-		for _, k := range keys {
-			fm := c.Redirect().Message(k)
-			oi := c.Redirect().OldInput(k)
-			keyed = append(keyed, hx(k)+":"+hx(fm.Key)+"."+hx(fm.Value)+"."+strconv.Itoa(int(fm.Level))+":"+hx(oi.Key)+"."+hx(oi.Value))
-		}
-		return c.SendString("ck=" + gen.Hex(c.Cookies("fiber_flash")) + ";m=" + s + "~" + strings.Join(keyed, ","))
+		return r.To("/show")
 	})
 	_ = app.Handler() // startup (route tree) without a listener
+}
+
+// seenBy: what a handler sees through the readers of Redirect(): "<messages>~<keyed>"
+func seenBy(c fiber.Ctx) string {
+	var parts []string
+	for _, m := range c.Redirect().Messages() {
+		parts = append(parts, hx(m.Key)+"."+hx(m.Value)+"."+strconv.Itoa(int(m.Level))+".0")
+	}
+	var olds []string
+	for _, m := range c.Redirect().OldInputs() {
+		olds = append(olds, hx(m.Key)+"."+hx(m.Value)+".0.1")
+	}
+	sort.Strings(olds) // issued in Go map order
+	parts = append(parts, olds...)
+	s := strings.Join(parts, ",")
+	if s == "" {
+		s = "-"
+	}
+	// keyed readers: every key of the script (flash keys, input names), every key the list
+	// readers showed, and one key that is (normally) absent; first occurrence only
+	var keys []string
+	have := map[string]bool{}
+	add := func(k string) {
+		if !have[k] {
+			have[k] = true
+			keys = append(keys, k)
+		}
+	}
+	for _, f := range cur.flashes {
+		add(f.key)
+	}
+	for _, kv := range cur.olds {
+		add(kv[0])
+	}
+	for _, m := range c.Redirect().Messages() {
+		add(m.Key)
+	}
+	for _, m := range c.Redirect().OldInputs() {
+		add(m.Key)
+	}
+	add("zz-absent")
+	var keyed []string
+	for _, k := range keys {
+		fm := c.Redirect().Message(k)
+		oi := c.Redirect().OldInput(k)
+		keyed = append(keyed, hx(k)+":"+hx(fm.Key)+"."+hx(fm.Value)+"."+strconv.Itoa(int(fm.Level))+":"+hx(oi.Key)+"."+hx(oi.Value))
+	}
+	return s + "~" + strings.Join(keyed, ",")
 }
 
 // serve sends raw request bytes over an in-memory connection and returns what the server wrote.
@@ -146,6 +178,11 @@ func issuedValue(raw []byte) (string, bool) {
 		return "", false
 	}
 	rest := raw[i+len(setCookiePrefix):]
+	if bytes.HasPrefix(rest, []byte("; ")) {
+		// empty value followed by attributes: the expiry written by parseAndClearFlashMessages,
+		// not an issued value (an issued value starts with a msgpack array header)
+		return "", false
+	}
 	j := bytes.LastIndex(rest, []byte(setCookieSuffix))
 	if j < 0 {
 		return "", false
@@ -261,6 +298,50 @@ func rtt(s script) []string {
 	raw3 := serve(rawShow(issued, has))
 	st3, seen3 := seenOf(raw3)
 	return append(out, gen.I(st2), seen2, gen.B(exp2), gen.I(st3), seen3)
+}
+
+// ---- re-flash: the consuming request redirects again with the messages it received -------------------
+
+func rawGet(path, cookie string, has bool) []byte {
+	h := "GET " + path + " HTTP/1.1\r\nHost: example.com\r\n"
+	if has {
+		h += "Cookie: fiber_flash=" + cookie + "\r\n"
+	}
+	return []byte(h + "\r\n")
+}
+
+// rff: /go issues; the verbatim client follows to /relay (consumes, re-attaches per mode, redirects);
+// the client applies that response (new value replaces the cookie, else an expiry drops it) and
+// follows to /show twice.
+func rff(s script, mode string) []string {
+	cur = s
+	relayMode = mode
+	raw1 := serve([]byte("GET /go HTTP/1.1\r\nHost: example.com\r\n\r\n"))
+	ck, has := issuedValue(raw1)
+	out := []string{optHex(ck, has)}
+	relaySeen = "nohandler"
+	raw2 := serve(rawGet("/relay", ck, has))
+	st2 := 0
+	if r, err := parseResp(raw2); err == nil {
+		st2 = r.status
+	}
+	issued2, has2 := issuedValue(raw2)
+	exp2 := expires(raw2)
+	out = append(out, gen.I(st2), relaySeen, optHex(issued2, has2), gen.B(exp2))
+	if has2 {
+		ck, has = issued2, true
+	} else if exp2 {
+		has = false
+	}
+	raw3 := serve(rawGet("/show", ck, has))
+	st3, seen3 := seenOf(raw3)
+	exp3 := expires(raw3)
+	if exp3 {
+		has = false
+	}
+	raw4 := serve(rawGet("/show", ck, has))
+	st4, seen4 := seenOf(raw4)
+	return append(out, gen.I(st3), seen3, gen.B(exp3), gen.I(st4), seen4)
 }
 
 // ---- decode histories ----------------------------------------------------------------------------------
@@ -430,6 +511,16 @@ func runCase(w *gen.Writer, id, kind string, in []string) {
 			obs = rtt(s)
 		}
 		w.Case(id, append(append([]string{kind}, in[:nf]...), obs...)...)
+	case "rff":
+		// keys vals levels mode
+		if len(in) < 4 {
+			return
+		}
+		sc, ok := parseScript([]string{in[0], in[1], in[2], "-", "-", "wi-"})
+		if !ok || (in[3] != "same" && in[3] != "rev" && in[3] != "chg") {
+			return
+		}
+		w.Case(id, append(append([]string{kind}, in[:4]...), rff(sc, in[3])...)...)
 	case "dec":
 		if len(in) < 1 {
 			return
@@ -489,6 +580,13 @@ func main() {
 			s := genScript(r, w, false)
 			runCase(w, id, "rtc", scriptFields(s))
 		case 1:
+			if (i/4)%2 == 1 {
+				s := genRelayScript(r, w)
+				mode := gen.Pick(r, []string{"same", "same", "rev", "chg"})
+				w.Count("relay-" + mode)
+				runCase(w, id, "rff", append(scriptFields(s)[:3], mode))
+				break
+			}
 			s := genScript(r, w, true)
 			runCase(w, id, "rtt", scriptFields(s))
 		default:
